@@ -1251,6 +1251,10 @@ class ClientObservation:
                 stacklevel=2,
             )
         if self.cancelled:
+            # like a registration on a live observation, a late one is told the
+            # latest response (register_errback then reports how it ended)
+            if self._latest_response is not None:
+                callback(self._latest_response)
             return
 
         self.callbacks.append(callback)
